@@ -7,6 +7,7 @@ import (
 	"sync/atomic"
 	"time"
 
+	"github.com/IrineSistiana/mosdns/v5/pkg/verifhook"
 	"go.uber.org/zap"
 )
 
@@ -52,6 +53,7 @@ func newLazyDnsConn(
 	go func() {
 		dc, err := dial(dialCtx)
 		cancelDial()
+		verifhook.PointArg("lazy.dial.returned", lc)
 		if err != nil {
 			logger.Check(zap.WarnLevel, "failed to dial dns conn").Write(zap.Error(err))
 		}
@@ -144,6 +146,7 @@ func (ote *lazyDnsConnEarlyReservedExchanger) ExchangeReserved(ctx context.Conte
 		ote.earlyReserveCallWg.Done()
 		return nil, context.Cause(ctx)
 	case <-ote.dialFinished:
+		verifhook.PointArg("lazy.early.woken", (*lazyDnsConn)(ote))
 		dc, err := ote.c, ote.dialErr
 		if err != nil {
 			return nil, err
